@@ -54,7 +54,7 @@ def parsePeer (op : List String) (obs : String) : Option PeerX :=
   match op with
   | "peer" :: i :: kind :: args =>
     let tx := (args.find? (·.startsWith "tx=")).map (fun (s : String) => (s.drop 3).toString) |>.getD ""
-    let args := args.filter (fun a => !a.startsWith "tx=" && !a.startsWith "gd=")
+    let args := args.filter (fun a => !a.startsWith "tx=" && !a.startsWith "gd=" && !a.startsWith "skew=")
     let k := Kind.ofString kind
     let sp : PeerSpec :=
       match k, args with
@@ -418,10 +418,14 @@ def runC04s (c : CaseIn) : Array String := Id.run do
         | "honest" :: ht :: "ahead" :: rest' =>
           let (ahead, rest'') := bracket rest'
           -- rigs with real peers also report who has been asked for the headers after our tip
-          let notAsked := match rest'' with
-            | "asked" :: r3 => let (asked, _) := bracket r3; aheadNotAsked (ahead.map nat!) (asked.map nat!)
+          let (notAsked, rest3) := match rest'' with
+            | "asked" :: r3 => let (asked, r4) := bracket r3; (aheadNotAsked (ahead.map nat!) (asked.map nat!), r4)
+            | _ => ([], rest'')
+          -- peers a handler disconnected although everything they serve was valid at that time
+          let dropped := match rest3 with
+            | "dropped-valid" :: r5 => let (d, _) := bracket r5; if d.isEmpty then [] else ["valid-peer-dropped"]
             | _ => []
-          faults := syncFaults sy cand (ahead.map nat!) ++ (if tip == ht then [] else ["no-convergence"]) ++ notAsked
+          faults := syncFaults sy cand (ahead.map nat!) ++ (if tip == ht then [] else ["no-convergence"]) ++ notAsked ++ dropped
         | _ => out := out.push s!"DIFF C04 case {c.num} line {ln}: unparsable final <{obs}>"
       else
         -- mid-run only the membership clause is an invariant (a reselection may be one handler step away)
